@@ -13,11 +13,11 @@ ORACLE = r"""
 EXTENDS SplitRecovery, Json, IOUtils
 Cases == JsonDeserialize(IOEnv.CASES)
 ASSUME JsonSerialize(IOEnv.OUT, [i \in 1..Len(Cases) |->
-   [shards |-> FlatShards(Cases[i].shapes, Cases[i].S), pieces |-> ShardPieces(Cases[i].shapes, Cases[i].S)]])
+   [shards |-> FlatShardsA(Cases[i].shapes, Cases[i].S, Cases[i].align), pieces |-> ShardPiecesA(Cases[i].shapes, Cases[i].S, Cases[i].align)]])
 ====
 """
 FS_CFG = ("SPECIFICATION Spec\nCONSTANTS MaxParams = {p}\n MaxOrder = {o}\n MaxNumel = {n}\n MaxN = {k}\n"
-          "INVARIANT InvExactlyOnce\nINVARIANT InvShardsDisjoint\nCHECK_DEADLOCK FALSE\n")
+          "INVARIANT InvExactlyOnce\nINVARIANT InvExactlyOnceAligned\nINVARIANT InvShardsDisjoint\nCHECK_DEADLOCK FALSE\n")
 SHAPES = [[[4, 3], [5]], [[3, 4, 2]], [[7, 2], [3, 3], [4]], [[2, 3, 2, 2], [6]], [[5, 5]], [[6, 2], [2, 2, 3]], [[9], [4, 4]], [[3, 7]],
           [[6, 10], [10]], [[8, 6]], [[4, 5, 3]], [[5, 8], [3, 8]]]      # the last ones give slabs of several rows that are cut into column blocks
 
@@ -38,7 +38,7 @@ def make_task(rng, kind):
             i = rng.randrange(len(cur))
             cur[i] = not cur[i]
         masks.append(list(cur))
-    t = {"kind": kind, "shapes": shapes, "S": S, "draw": draw, "masks": masks, "seed": rng.randrange(1 << 30)}
+    t = {"kind": kind, "shapes": shapes, "S": S, "draw": draw, "masks": masks, "seed": rng.randrange(1 << 30), "align": rng.choice([1, 4])}
     if kind == "hsdp":
         t["S"] = min(S, 3)
         t["R"] = rng.choice([1, 2, 2, 4]) if t["S"] <= 2 else rng.choice([1, 2])
@@ -49,7 +49,7 @@ def make_task(rng, kind):
 
 
 def attach_spec(tasks):
-    exp, _ = tlc.oracle("ShardOracle", ORACLE, [{"shapes": t["shapes"], "S": t["S"]} for t in tasks], tag="C07-o")
+    exp, _ = tlc.oracle("ShardOracle", ORACLE, [{"shapes": t["shapes"], "S": t["S"], "align": t.get("align", 1)} for t in tasks], tag="C07-o")
     for t, e in zip(tasks, exp):
         t["shards"] = [[list(x) for x in rank] for rank in e["shards"]]
         t["pieces"] = [[[{"off": p["off"], "len": p["len"], "shp": list(p["shp"])} for p in (pp or [])] for pp in rank] for rank in e["pieces"]]
